@@ -214,12 +214,30 @@ def float_part(ck, rng, thorough):
     ck.cov['float_worst_error_over_bound'] = worst
 
 
+def block_part(ck, rng, thorough):
+    """one iteration of the REAL controller on blocks of 2-3 time-parallel steps with 1-3 levels (Jacobi / Gauss-Seidel coupling,
+    generic_implicit / IMEX sweepers, both prolongation modes) in exact arithmetic == the schedule Model/Block.pfasst_iteration
+    evaluated by the kernel (ties the block model of C01_block_fixed_point_any_schedule to the controller)"""
+    from harness import blockcase as bc
+    cases = []
+    for i in range(240 if thorough else 32):
+        c = bc.make_block_case(rng, i)
+        if c:
+            cases.append(c)
+            m = c[0]
+            ck.case(key=('block', m['steps'], m['levels'], tuple(m['nodes']), tuple(m['nsweeps']), tuple(m['dims']), m['imex'], m['jacobi'], m['finter'], tuple(m['QI'])),
+                    sample=m)
+    bc.eval_block_cases(ck, cases, chunk=4)
+
+
 def run(ck):
     logging.disable(logging.CRITICAL)
     thorough = ck.tier == 'thorough'
     ck.rule = ('seeded configurations (sweeper kind, levels, steps per block, preconditioner per level, predictor, coupling, nsweeps, initial guess, '
                'residual type, quadrature type, end-point mode); non-trivial = every step reached restol (the property\'s premise)')
     ck.check_props(required=['C01_fixed_point_is_collocation', 'C01_collocation_is_fixed_point', 'C01_imex_fixed_point_is_collocation', 'C01_imex_collocation_is_fixed_point', 'C01_explicit_fixed_point_is_collocation', 'C01_explicit_collocation_is_fixed_point',
-                             'C01_multi_implicit_fixed_point_is_collocation', 'C01_residual_zero_iff_collocation'])
+                             'C01_multi_implicit_fixed_point_is_collocation', 'C01_residual_zero_iff_collocation',
+                             'C01_block_fixed_point_any_schedule', 'C01_controller_schedule_in_bounds'])
     exact_part(ck, ck.rng, thorough)
+    block_part(ck, ck.rng, thorough)
     float_part(ck, ck.rng, thorough)
